@@ -62,6 +62,7 @@ func plansFor(prop string, thorough bool) ([]Plan, int) {
 		return []Plan{
 			{Name: "gov-c13", Const: "gov", Kinds: []string{"vote", "seen", "dkgres", "checkin", "dkgmsg"}, Depth: d(3, 4), Twins: "c13",
 				SimNum: d(150, 1500), SimDepth: d(25, 40), MaxBeh: d(600, 8000)},
+			{Name: "out-c13", Const: "out", Kinds: []string{"vote", "dkgres", "dkgone"}, Depth: d(5, 6), Twins: "c13", MaxBeh: d(0, 0)},
 			{Name: "val-c13", Const: "val", Kinds: []string{"vote", "seen", "checkin"}, Depth: d(4, 6), Twins: "c13", MaxBeh: d(600, 8000)},
 			{Name: "val2-c13", Const: "val2", Kinds: []string{"vote", "seen", "checkin"}, Depth: d(6, 8), Twins: "c13", MaxBeh: d(800, 8000)},
 			{Name: "one-chk-c13", Const: "one", Kinds: []string{"chk", "seen"}, Depth: d(6, 8), Twins: "c13", MaxBeh: d(600, 6000)},
